@@ -1,6 +1,7 @@
 import AkVerif.Model.Murmur
 import AkVerif.Model.Assign
 import AkVerif.Model.Sticky
+import AkVerif.Model.StickyAlg
 import Driver.WireIO
 import Driver.ConnIO
 /-!
@@ -15,6 +16,7 @@ def dispatch (toks : List String) : Option String :=
   | "c17" :: rest => Murmur.handle rest
   | "c14" :: rest => Assign.handle rest
   | "c15" :: rest => Sticky.handle rest
+  | "sticky" :: rest => StickyAlg.handle rest
   | "c11" :: rest => WireIO.handle rest
   | "c12" :: rest => ConnIO.handle rest
   | _ => none
